@@ -66,6 +66,13 @@ pub fn exec_stage(sc: &Scenario, prop: &'static str) -> Report {
             if let Some(p) = res.panic {
                 r.violate(&format!("{prop}.no_panic"), format!("op#{} {} panicked: {p}", st.op_idx, op.short()));
             }
+            if st.wide_wrap {
+                if let Some((_, d)) = r.violation.as_mut() {
+                    if !d.contains("KF-WIDE-WRAP") {
+                        d.push_str("\n[a line with a double-width character wraps or may wrap in this history: KF-WIDE-WRAP]");
+                    }
+                }
+            }
             if prop == "C16" && r.violation.is_none() {
                 if let Some(t) = st.term.lock().tab_seen.clone() {
                     r.violate("C16.tab_reached_terminal", format!("op#{} {}: a TAB character reached the terminal inside {t:?}", st.op_idx, op.short()));
